@@ -148,7 +148,7 @@ Section RecC.
   Proof.
     induction n as [f t0 t1 ks IH] using call_ind'. intros i o dp stk ri ou hk Hi Ho Hlen Hwf.
     pose proof (recC_kids ks IH) as HK.
-    apply wf_kids in Hwf. destruct Hwf as (H01 & H1 & _ & Hwk & _).
+    apply wf_kids in Hwf. destruct Hwf as (H01 & H1 & Hwk & _).
     assert (Hl : (length stk < 1024)%nat) by (cbn [height] in Hlen; lia).
     assert (Hlk1 : forall F, (length (F :: stk) + fheight ks <= 1024)%nat)
       by (intro; cbn [height length] in *; unfold fheight; lia).
